@@ -8,7 +8,7 @@ EXTENDS Naturals, Integers, Sequences, SequencesExt, FiniteSets, TLC, JCommon, A
 Judge_json(c) ==
   LET P == Parse(c.schema) IN
   IF ~P.ok THEN << Cl("H.schema", "fail") >>
-  ELSE IF "perr" \in DOMAIN c THEN << Cl("C11.accept", "fail") >>
+  ELSE IF "perr" \in DOMAIN c THEN << Cl("C11.accept", "fail"), Cl("C15.enc", "fail") >>
   ELSE
   LET t == P.t
       names == P.st.names
